@@ -15,7 +15,7 @@
    LockV2Contract and RenewV2Contract themselves. *)
 From HostdBase Require Import Base.
 From HostdRoots Require Import Model Lists ProofsReplay ProofsInv ProofsStep ProofsRenew ProofsSpec ProofsTop.
-From HostdRoots Require Import Sess SessFrame SessProofs SessTop Chain ChainProofs.
+From HostdRoots Require Import Sess SessFrame SessProofs SessTop Chain ChainProofs SessCheck Guard.
 Open Scope N_scope.
 
 (* RHP2 renew-and-clear / RHP3 renew (Manager.RenewContract) accepted in a reachable state *)
@@ -191,6 +191,21 @@ Theorem c13_renewed_predecessor_refuses_waiters : forall meta S t id d, SInv met
   sstep faithful S (SAcq1 t id) = (S, SOLock1 (Err EInvalid)) \/ sstep faithful S (SAcq1 t id) = (S, SOBusy).
 Proof. exact renewed1_refuses_lock. Qed.
 Print Assumptions c13_renewed_predecessor_refuses_waiters.
+
+(* WP-G (fixes/C06-revise-guard-at-commit.patch): the manager's revising calls evaluate
+   isGoodForModification themselves, so a renewed predecessor refuses ReviseContract and a second
+   RenewContract even from a session that still holds its lock (before the patch only Manager.Lock
+   refused and rhp/v2 had to forget the stale revision: fixes/C13-rhp2-session-stale-after-renew.patch) *)
+Theorem c13_renewed_predecessor_refuses_updater : forall meta s u id d, Inv meta s -> renewed1 s id d ->
+  step s (Open1 u id) = (s, ORes (Err EInvalid)).
+Proof. exact pred1_refuses_updater. Qed.
+Print Assumptions c13_renewed_predecessor_refuses_updater.
+
+Theorem c13_renewed_predecessor_refuses_second_renewal :
+  forall meta s id d new crev cfsize cmroot nrev nfsize nmroot nws mold, Inv meta s -> renewed1 s id d ->
+  step s (Renew1 id new crev cfsize cmroot nrev nfsize nmroot nws mold None) = (s, ORes (Err EInvalid)).
+Proof. exact pred1_refuses_renewal. Qed.
+Print Assumptions c13_renewed_predecessor_refuses_second_renewal.
 
 (* the discipline is preserved by the sessions' steps, so the two theorems above apply along any history *)
 Theorem c13_sessions_invariant : forall meta evs S, SInv meta S -> sdisc_run meta true faithful S evs ->
